@@ -5,8 +5,18 @@ pub fn dispatch(op: &str, rest: &str) -> String {
     let a: Vec<&str> = rest.split(' ').collect();
     match op {
         "name" => op_name(&unhex(a[0]), a[1].parse().unwrap()),
+        "script" => crate::ops_script::op_script(&a),
         _ => format!("BADOP({})", op),
     }
+}
+
+#[cfg(feature = "hooks")]
+pub fn label_pos(l: &rsdns::message::reader::LabelRef) -> usize {
+    rsdns::verif::label_pos(l)
+}
+#[cfg(not(feature = "hooks"))]
+pub fn label_pos(_l: &rsdns::message::reader::LabelRef) -> usize {
+    0
 }
 
 // name <hexmsg> <pos>: the four ways of consuming the wire name at pos
